@@ -33,6 +33,8 @@ type Program struct {
 	GOARCH  string
 
 	NumFuncs int // repo source functions with SSA bodies
+
+	funcIndex map[string]map[string]*types.Func
 }
 
 // curProgram is the program of the build configuration being analysed (for helpers that match provenance
@@ -145,6 +147,7 @@ func LoadProgram(goos, goarch string, needSSA bool) (*Program, error) {
 			}
 		}
 	}
+	buildCanon(p)
 	return p, nil
 }
 
@@ -169,34 +172,49 @@ func (p *Program) SSAPkg(rel string) *ssa.Package {
 // Func returns the SSA function for a package-level function or method
 // ("Name" or "(*T).Name" / "T.Name").
 func (p *Program) Func(rel, name string) *ssa.Function {
-	sp := p.SSAPkg(rel)
-	if sp == nil {
+	pk := p.Pkg(rel)
+	if pk == nil || pk.Types == nil {
 		return nil
 	}
-	if !strings.Contains(name, ".") {
-		return sp.Func(name)
+	if p.funcIndex == nil {
+		p.funcIndex = map[string]map[string]*types.Func{}
 	}
-	ptr := false
-	n := name
-	if strings.HasPrefix(n, "(*") {
-		ptr = true
-		n = strings.TrimPrefix(n, "(*")
-		n = strings.Replace(n, ")", "", 1)
+	idx := p.funcIndex[rel]
+	if idx == nil {
+		idx = map[string]*types.Func{}
+		add := func(f *types.Func) {
+			k := funcKey(f)
+			if c, ok := canonObj[f]; ok {
+				k = c
+			}
+			if _, dup := idx[k]; !dup {
+				idx[k] = f
+			}
+		}
+		sc := pk.Types.Scope()
+		for _, n := range sc.Names() {
+			switch o := sc.Lookup(n).(type) {
+			case *types.Func:
+				add(o)
+			case *types.TypeName:
+				if nm, ok := o.Type().(*types.Named); ok && !o.IsAlias() {
+					for i := 0; i < nm.NumMethods(); i++ {
+						add(nm.Method(i))
+					}
+				}
+			}
+		}
+		p.funcIndex[rel] = idx
 	}
-	parts := strings.SplitN(n, ".", 2)
-	tn := sp.Type(parts[0])
-	if tn == nil {
+	f := idx[name]
+	if f == nil && strings.HasPrefix(name, "(*") {
+		// a value-receiver method is also in the pointer's method set
+		f = idx[strings.Replace(strings.TrimPrefix(name, "(*"), ")", "", 1)]
+	}
+	if f == nil {
 		return nil
 	}
-	var T types.Type = tn.Type()
-	if ptr {
-		T = types.NewPointer(T)
-	}
-	sel := p.SSA.MethodSets.MethodSet(T).Lookup(sp.Pkg, parts[1])
-	if sel == nil {
-		return nil
-	}
-	return p.SSA.MethodValue(sel)
+	return p.SSA.FuncValue(f)
 }
 
 // Pos renders a position relative to the repository root.
@@ -242,12 +260,34 @@ func (p *Program) FuncDecl(rel, recv, name string) (*ast.FuncDecl, *packages.Pac
 	return nil, pk
 }
 
-// PkgVarInit returns the initialiser expression of a package-level variable.
+// PkgVarInit returns the initialiser expression of a package-level variable, looked up by its
+// canonical (baseline) name.
 func (p *Program) PkgVarInit(rel, name string) (ast.Expr, *packages.Package) {
 	pk := p.Pkg(rel)
 	if pk == nil {
 		return nil, nil
 	}
+	for _, f := range pk.Syntax {
+		for _, d := range f.Decls {
+			gd, ok := d.(*ast.GenDecl)
+			if !ok || (gd.Tok != token.VAR && gd.Tok != token.CONST) {
+				continue
+			}
+			for _, s := range gd.Specs {
+				vs := s.(*ast.ValueSpec)
+				for i, n := range vs.Names {
+					if canonName(pk.TypesInfo.Defs[n]) == name && i < len(vs.Values) {
+						return vs.Values[i], pk
+					}
+				}
+			}
+		}
+	}
+	return nil, pk
+}
+
+// rawPkgVarInit looks a variable up by the name it has in the current tree.
+func (p *Program) rawPkgVarInit(pk *packages.Package, name string) (ast.Expr, *packages.Package) {
 	for _, f := range pk.Syntax {
 		for _, d := range f.Decls {
 			gd, ok := d.(*ast.GenDecl)
